@@ -122,6 +122,15 @@ fn reference_kinds(thorough: bool) -> Vec<Subject> {
         ("fault/undeclared-variable-beside-instance", vec![callee], ("C", "fb", "FUNCTION_BLOCK C VAR i : Callee ; n : INT ; END_VAR i ( a := n ) ; zz := 1 ; END_FUNCTION_BLOCK"), true),
         ("fault/external-not-constant", vec![main, cfg], ("C", "fb", "FUNCTION_BLOCK C VAR_EXTERNAL G : INT ; END_VAR VAR n : INT ; END_VAR n := G ; END_FUNCTION_BLOCK"), true),
         ("fault/undefined-task", vec![main], ("C", "configuration", "CONFIGURATION C RESOURCE res ON PLC PROGRAM p1 WITH nope : Main ; END_RESOURCE END_CONFIGURATION"), true),
+        // a name that only another declaration declares locally (per-declaration state must not leak into the next one)
+        ("fault/instance-declared-only-in-a-function", vec![callee, ("Holder", "function", "FUNCTION Holder : INT VAR_INPUT a : INT ; END_VAR VAR i : Callee ; END_VAR Holder := a ; END_FUNCTION")], ("C", "program", "PROGRAM C VAR n : INT ; END_VAR i ( a := n ) ; END_PROGRAM"), true),
+        ("fault/instance-declared-only-in-another-function-block", vec![callee, ("Holder", "fb", "FUNCTION_BLOCK Holder VAR i : Callee ; n : INT ; END_VAR i ( a := n ) ; END_FUNCTION_BLOCK")], ("C", "program", "PROGRAM C VAR n : INT ; END_VAR i ( a := n ) ; END_PROGRAM"), true),
+        ("fault/instance-declared-only-in-another-program", vec![callee, ("Holder", "program", "PROGRAM Holder VAR i : Callee ; n : INT ; END_VAR i ( a := n ) ; END_PROGRAM")], ("C", "fb", "FUNCTION_BLOCK C VAR n : INT ; END_VAR i ( a := n ) ; END_FUNCTION_BLOCK"), true),
+        ("fault/variable-declared-only-in-a-function", vec![("Holder", "function", "FUNCTION Holder : INT VAR_INPUT zz : INT ; END_VAR Holder := zz ; END_FUNCTION")], ("C", "fb", "FUNCTION_BLOCK C VAR n : INT ; END_VAR n := zz ; END_FUNCTION_BLOCK"), true),
+        ("fault/variable-declared-only-in-another-function-block", vec![("Holder", "fb", "FUNCTION_BLOCK Holder VAR zz : INT ; END_VAR zz := 1 ; END_FUNCTION_BLOCK")], ("C", "program", "PROGRAM C VAR n : INT ; END_VAR n := zz ; END_PROGRAM"), true),
+        ("fault/variable-declared-only-in-another-program", vec![("Holder", "program", "PROGRAM Holder VAR zz : INT ; END_VAR zz := 1 ; END_PROGRAM")], ("C", "function", "FUNCTION C : INT VAR_INPUT a : INT ; END_VAR C := zz ; END_FUNCTION"), true),
+        ("fault/constant-declared-only-in-another-function-block", vec![("Holder", "fb", "FUNCTION_BLOCK Holder VAR CONSTANT k : INT := 1 ; END_VAR VAR n : INT ; END_VAR n := k ; END_FUNCTION_BLOCK")], ("C", "fb", "FUNCTION_BLOCK C VAR n : INT ; END_VAR n := k ; END_FUNCTION_BLOCK"), true),
+        ("fault/external-declared-only-in-another-function-block", vec![main, cfg, ("Holder", "fb", "FUNCTION_BLOCK Holder VAR_EXTERNAL CONSTANT G : INT ; END_VAR VAR n : INT ; END_VAR n := G ; END_FUNCTION_BLOCK")], ("C", "fb", "FUNCTION_BLOCK C VAR n : INT ; END_VAR n := G ; END_FUNCTION_BLOCK"), true),
         ("fault/self-reference-through-provider", vec![("Pt", "type", "TYPE Pt : STRUCT c : C ; END_STRUCT ; END_TYPE")], ("C", "type", "TYPE C : STRUCT p : Pt ; END_STRUCT ; END_TYPE"), true),
     ];
     let filler_fb = ("Other", "fb", "FUNCTION_BLOCK Other VAR n : INT ; END_VAR n := 1 ; END_FUNCTION_BLOCK");
